@@ -101,18 +101,24 @@ Theorem C20_str_path_identity : forall s,
 Proof. exact (fun s => conj eq_refl eq_refl). Qed.
 Print Assumptions C20_str_path_identity.
 
+(* lists and tuples, the empty one included (its text form is the empty text); the one list without a text form of its own is [""] *)
 Theorem C20_list_tuple_roundtrip : forall l : list str,
-  l <> [] -> Forall (free_of ","%char) l -> Forall trimmed l ->
+  l <> [[]] -> Forall (free_of ","%char) l -> Forall trimmed l ->
   parse (p_dispatch gen_params) TList (join ","%char l) = Ok (VList l) /\
   parse (p_dispatch gen_params) TTuple (join ","%char l) = Ok (VTuple l).
 Proof. exact (fun l H1 H2 H3 => list_and_tuple_parse (p_dispatch gen_params) l H1 H2 H3 eq_refl eq_refl). Qed.
 Print Assumptions C20_list_tuple_roundtrip.
 
 Theorem C20_mapping_roundtrip : forall kvs : list (str * str),
-  kvs <> [] ->
   Forall (fun kv => clean (fst kv) /\ clean (snd kv) /\ fst kv <> [] /\ snd kv <> []) kvs ->
   parse (p_dispatch gen_params) TDict (join ","%char (map kv_text kvs)) = Ok (VDict (dict_build kvs [])).
 Proof. exact dict_roundtrip. Qed.
+
+(* repaired defect: before, the empty text parsed to [""] (a list holding one empty string) and was rejected for mappings *)
+Example C20_empty_collections :
+  parse (p_dispatch gen_params) TList [] = Ok (VList []) /\ parse (p_dispatch gen_params) TTuple (s2l "  ") = Ok (VTuple []) /\
+  parse (p_dispatch gen_params) TDict [] = Ok (VDict []).
+Proof. vm_compute. repeat split. Qed.
 Print Assumptions C20_mapping_roundtrip.
 
 (* T-G: the spellings of a member name tried by the source are the ones of the model *)
